@@ -32,3 +32,15 @@ package plumbing
 //gvc:  results id ok
 //gvc:  ensures ok == (len(in) == 20 || len(in) == 32)
 //gvc:end
+
+//gvc:func (*Reference).Name
+//gvc:  props C19 C39
+//gvc:  theory int
+//gvc:  ensures same: result == r.n
+//gvc:end
+
+//gvc:func (*Reference).Hash
+//gvc:  props C19 C39
+//gvc:  theory int
+//gvc:  ensures same: result == r.h
+//gvc:end
